@@ -176,12 +176,28 @@ def judge(chk: Check, traces: list[dict], label: str, via: str) -> None:
     chk.sample({"family": label, "via": via, "union": t["u"], "payload": t["cases"][0]["p"], "observed": t["obs"][0]}, cap=8)
 
 
-def replay_direct(chk: Check, scen: list[dict], label: str, all_positions_upto: int) -> None:
-    jobs = direct_jobs(chk, scen, label, all_positions_upto)
+def replay_direct(chk: Check, groups: list[tuple[str, list[dict], int, bool]], label: str = "direct") -> None:
+    """groups: (family label, scenarios, all_positions_upto, history?) - ONE worker round and ONE monitor batch for all
+    of them (a JVM start and 16 interpreter starts per family are a noticeable part of the quick tier's budget).
+    history: HistoryIndependent on the real converter - another union with an equal (property, value -> class NAME)
+    table is decoded first through the same converter module, then this one; `fresh` is the fresh-process outcome."""
+    jobs, scen_of = [], []
+    for fam, scen, upto, hist in groups:
+        js = direct_jobs(chk, scen, fam, upto)
+        for j, d in zip(js, scen):
+            if hist:
+                j["history"] = {"vars": hist_vars(d["u"])}
+            jobs.append(j)
+            scen_of.append(d)
+    if not jobs:
+        return
     res = core.parallel_py(chk.scratch, "harness.w_union", jobs)
     traces = []
-    for d, j, r in zip(scen, jobs, res):
-        traces.append({"id": j["id"], "u": d["u"], "cases": [{"cid": c["cid"], "p": c["payload"]} for c in j["cases"]], "obs": r["res"]})
+    for d, j, r in zip(scen_of, jobs, res):
+        t = {"id": j["id"], "u": d["u"], "cases": [{"cid": c["cid"], "p": c["payload"]} for c in j["cases"]], "obs": r["res"]}
+        if "history" in j:
+            t["fresh"] = r["fresh"]
+        traces.append(t)
     judge(chk, traces, label, "direct")
 
 
@@ -189,21 +205,6 @@ def hist_vars(u: dict) -> list[dict]:
     """The 'other client' of a history replay: same number of variants, same discriminator table and class names, but
     every variant reduced to the discriminator property alone (an older API version with fewer properties)."""
     return [{"k": "obj", "of": "-", "f": ["abs", "abs", "abs"]} for _ in u["vars"]]
-
-
-def replay_history(chk: Check, scen: list[dict], label: str) -> None:
-    """HistoryIndependent on the real converter: decode another union with an equal (property, value -> class NAME)
-    table first, through the same converter module, then this one; compare with the fresh-process outcome."""
-    if not scen:
-        return
-    jobs = direct_jobs(chk, scen, label, 2)
-    for j, d in zip(jobs, scen):
-        j["history"] = {"vars": hist_vars(d["u"])}
-    res = core.parallel_py(chk.scratch, "harness.w_union", jobs)
-    traces = []
-    for d, j, r in zip(scen, jobs, res):
-        traces.append({"id": j["id"], "u": d["u"], "cases": [{"cid": c["cid"], "p": c["payload"]} for c in j["cases"]], "obs": r["res"], "fresh": r["fresh"]})
-    judge(chk, traces, label, "direct")
 
 
 # ---- generated packages
@@ -435,15 +436,17 @@ def run(chk: Check) -> None:
     chk.require(not any(k.split(" ")[0] in ("C14.unmapped_guess", "C14.retry_after_mapped_failure", "C14.wrong_variant_with_discriminator") for k in rel),
                 "the modelled algorithm violates a discriminator clause: model and design notes out of date")
     allpos = 3 if thorough else 2  # unions with more variants are replayed at one (hash-chosen) position each
+    groups = []
     for fam, scen in fams.items():
         if fam == "obj" and not thorough:
             # quick tier: every 2-variant object union, a deterministic quarter of the 3-variant ones (the design check above
             # is exhaustive in both tiers; the thorough tier replays all of them)
             scen = [d for d in scen if len(d["u"]["vars"]) == 2 or stable_hash(ukey(d["u"]), chk.seed) % 4 == 0]
             chk.cov["exhaustive_replay"] = False
-        replay_direct(chk, scen, fam, allpos)
+        groups.append((fam, scen, allpos, False))
     hist = [d for d in fams["disc"] if d["u"]["disc"]["mode"] == "complete" and (thorough or len(d["u"]["vars"]) == 2)]
-    replay_history(chk, hist, "history")
+    groups.append(("history", hist, 2, True))
+    replay_direct(chk, groups)
     replay_generated(chk, pick_generated(chk, fams, 300 if thorough else 200), "generated")
     chk.cov["exhaustive"] = True
 
